@@ -270,6 +270,15 @@ PROPS["C14"]["rules"] = PROPS["C14"]["rules"] + [rules_ref.rule_bitflush_mode]
 PROPS["C14"]["explanation"] += " (BITFLUSH) the bit-I/O layer writes its buffer back (HIbitflush) only on paths where the bitfile is in write *mode*; being opened with write *access* is not enough, a buffer filled by reading must never be written."
 PROPS["C05"]["rules"] = PROPS["C05"]["rules"] + [rules_ref.rule_bitflush_mode]
 
+PROPS["C19"]["rules"] = PROPS["C19"]["rules"] + [rules_tools.rule_index_count_pairing]
+PROPS["C19"]["explanation"] += " (PAIR) every loop of hdiff/hdp (and hrepack's listing code) that enumerates items by index is bounded by the count that was queried from the *same* object it indexes."
+
+PROPS["C06"]["rules"] = PROPS["C06"]["rules"] + [(lambda ctx: rules_ref.rule_inout_used(ctx, callees={"hdf_check_nt"}, floor=2))]
+PROPS["C06"]["explanation"] = PROPS["C06"]["explanation"].replace(" Not decided: that callers", " (INOUT) the number type that hdf_check_nt normalises in place (native / little-endian flavour of a DFSD-era dataset or dimension scale) is read again by its caller after the call, i.e. the normalised flavour is the one that is kept. Not decided: that other callers")
+
+PROPS["C05"]["rules"] = PROPS["C05"]["rules"] + [rules_gr.rule_signext_symmetry]
+PROPS["C05"]["explanation"] += " (BITFLUSH) the bit buffer is written back only in write mode. (SIGNSYM) the two sign-extension arms of the n-bit decoder (fill with ones / fill with zeroes) touch exactly the same bytes and bits."
+
 NOT_APPLICABLE = {
     "C18": "hrepack content preservation/idempotence is value-level over file x option products; no structural clause is a genuine "
            "necessary condition that is not already another property's rule",
